@@ -199,21 +199,24 @@ func ruleCode93Checksum(c *Ctx) {
 	}
 	// result: the character whose value equals total % 47
 	// (when the sum is computed by a helper, its result on the return after the loop is total % 47)
-	helperResult := ""
+	// (when the sum is computed by a helper, its results on the return after the loop stand for the
+	// helper call in the caller: whatever is done with them afterwards is seen in terms of "total")
+	subst := map[ssa.Value]Poly{}
 	if fn != outer && len(loopSite.Path) == 1 {
 		hc := loopSite.Path[0].(*ssa.Call)
+		var post []*ssa.Return
 		for _, ret := range returnsOf(fn) {
-			if hdr.Succs[0].Dominates(ret.Block()) {
-				continue // return from inside the loop (character not encodable)
+			if !hdr.Succs[0].Dominates(ret.Block()) { // returns from inside the loop: character not encodable
+				post = append(post, ret)
 			}
-			for k, r := range ret.Results {
-				if pEqual(n.Norm(r), MustRef("total % 47")) {
-					nn := NewNormer(c.P)
-					nn.BindParams(outer, "content", "maxWeight")
-					nn.NoInline[c.P.FuncName(fn)] = true
-					helperResult = nn.Norm(hc).asAtom()
-					if len(ret.Results) > 1 {
-						helperResult = fmt.Sprintf("%s#%d", helperResult, k)
+		}
+		if len(post) == 1 {
+			if len(post[0].Results) == 1 {
+				subst[hc] = n.Norm(post[0].Results[0])
+			} else {
+				for _, r := range *hc.Referrers() {
+					if ex, ok := r.(*ssa.Extract); ok {
+						subst[ex] = n.Norm(post[0].Results[ex.Index])
 					}
 				}
 			}
@@ -229,10 +232,11 @@ func ruleCode93Checksum(c *Ctx) {
 		for _, pair := range [][2]ssa.Value{{bo.X, bo.Y}, {bo.Y, bo.X}} {
 			if (s.Fn == fn || fn == outer) && pEqual(n.NormAt(s, pair[0]), MustRef("total % 47")) {
 				// compared directly
-			} else if nn := NewNormer(c.P); helperResult != "" {
+			} else if len(subst) > 0 {
+				nn := NewNormer(c.P)
 				nn.BindParams(outer, "content", "maxWeight")
-				nn.NoInline[c.P.FuncName(fn)] = true
-				if nn.NormAt(s, pair[0]).String() != helperResult {
+				nn.env = append(nn.env, subst)
+				if !pEqual(nn.NormAt(s, pair[0]), MustRef("total % 47")) {
 					continue
 				}
 			} else {
